@@ -203,7 +203,7 @@ func joinParts(parts []string, sep func(i int) string) string {
 	return b.String()
 }
 
-var printedForms = []string{`/u<a>`, `/t/u<a b>`, `/_<x>`, `_:b1`, `?x`, `?long_name1`, `"p"@[]`, `"p q"@[2006-01-02T15:04:05.999999999Z]`,
+var printedForms = []string{`/u<a>`, `/t/u<a b>`, `/_<x>`, `_:b1`, `_:V1`, `_:Node_7`, `_:Ünode`, `_:名前`, `_:ǅx`, `_:é`, `?x`, `?long_name1`, `?X`, `?名`, `"p"@[]`, `"p q"@[2006-01-02T15:04:05.999999999Z]`,
 	`"p"@[2006-01-02T15:04:05+01:00]`, `"p"@[,]`, `"p"@[2006-01-02T15:04:05Z,2007-01-02T15:04:05Z]`, `"é@"@[]`,
 	`"true"^^type:bool`, `"-1"^^type:int64`, `"1.5e+07"^^type:float64`, `"a b"^^type:text`, `"[1 2 3]"^^type:blob`, `""^^type:text`,
 	// the witnesses of known finding D36 (a text ending with a backslash) and of fix ed4a530 (a predicate ID ending with one)
@@ -386,7 +386,7 @@ func cmdLex(args []string) error {
 	}
 	// 4. mutations of statements and random unicode (incl. invalid UTF-8)
 	inject := []string{"?", "/", "_", ":", "\"", "@", "[", "]", "<", ">", "^", " ", ",", ";", "\\", "(", ")", "{", "}", ".", "=", "1", "a", "T",
-		"é", "ſ", "K", "İ", " ", "\xff", "\xc3", "\"@[", "\"^^type:", "^^TYPE:Int64"}
+		"é", "ſ", "K", "İ", "A", "Z", "Ü", "名", "ǅ", "_:", "_:A", " ", "\xff", "\xc3", "\"@[", "\"^^type:", "^^TYPE:Int64"}
 	for i := 0; i < *n; i++ {
 		ps := parts[r.intn(len(parts))]
 		s := joinParts(ps, func(int) string { return " " })
